@@ -5,6 +5,17 @@ HERE = os.path.dirname(os.path.dirname(os.path.abspath(__file__)))
 ALL = ['C%02d' % i for i in range(1, 21)]
 
 CLAIMED = {
+ 'C01': dict(
+    level='model_checking',
+    text='QBValues/QBExpr/QB.tla are a statement-level operational semantics of the generated QBASIC subset (typed values with exact '
+         'dyadic floats, implicit conversions, every operator, built-in string/number functions, LET, PRINT, IF/ELSEIF, FOR, WHILE, DO, '
+         'SELECT CASE, GOTO/GOSUB, SUB/FUNCTION with by-reference and by-value arguments, recursion, arrays, records, CONST, SHARED, '
+         'device statements, run-time errors with their statement). A typed generator builds ASTs and unparses them; each program is '
+         'compiled in the six configurations and run; Trace_QB.tla executes the AST and validates every recorded device event (typed '
+         'values taken from the operand stack, separators, source line in debug builds) and the outcome of every configuration.',
+    note='Trusted: TLC, the generator/unparser (AST -> text), the event observer. Floats outside the exact dyadic window end the comparison of that run (verdict oom, counted in evidence). INPUT/READ/ON ERROR are covered by C18/C15/C10, not by this generator yet.',
+    technique='TLA+ operational semantics interpreted by TLC over generated ASTs; trace validation of real runs in 6 configurations',
+    design='6 C01'),
  'C20': dict(
     level='model_checking',
     text='Session.tla states that the result of a compile or run request is a function of the request alone (memo over all processes '
